@@ -149,6 +149,16 @@ class World:
                     with create_sqlite_connection(o.sqlite_db_path) as conn:
                         conn.execute(f"UPDATE {o.tables.RUNNER_HEARTBEATS} SET last_heartbeat=? WHERE runner_id=?", (long_ago, rid))
                         conn.commit()
+            elif k == "oldpending":
+                # an invocation a stalled runner claimed long ago and never started (PENDING far beyond max_pending_seconds; RUNNING of a
+                # runner that may be gone): what the recovery services will deal with - a page that shows it does not
+                i = self._i(op[1])
+                if i:
+                    from harness.apps import inject_status
+
+                    rec = o.get_invocation_status_record(i)
+                    if rec.status in (S.PENDING, S.RUNNING):
+                        inject_status(a, i, rec.status, rec.runner_id, int((_t.time() - 4 * 3600.0) * 1_000_000))
             elif k == "atomic":
                 now = dt.datetime.now(dt.UTC)
                 o.register_runner_heartbeats([op[1]], True)
@@ -203,6 +213,7 @@ def scripted_histories() -> dict[str, list[list]]:
         ["claim", "rA", 3], ["status", 0, "RUNNING", "rA"], ["status", 1, "RUNNING", "rA"], ["finish", 0, "rA", 3],
         ["fail", 1, "rA", "boom"], ["claim", "rB", 1], ["status", 3, "RUNNING", "rB"], ["retry", 3, "rB"],
         ["incretry", 2], ["heartbeat", ["rA"], True], ["stale", "rOld"], ["call", "add", [8, 9]], ["claim", "rOld", 1],
+        ["oldpending", 8], ["call", "add", [9, 1]], ["claim", "rOld", 1], ["status", 9, "RUNNING", "rOld"], ["oldpending", 9],
     ]
     return {
         "long-queue": [["call", "add", [i, i]] for i in range(7)],
@@ -251,8 +262,10 @@ def random_history(rng, n: int) -> list[list]:
             ops.append(["retry", k, run])
         elif r < 0.79:
             ops.append(["heartbeat", rng.sample(runners, rng.randrange(1, 3)), rng.random() < 0.5])
-        elif r < 0.80:
+        elif r < 0.795:
             ops.append(["stale", rng.choice(["rOld", "rC"])])
+        elif r < 0.80:
+            ops.append(["oldpending", k])
         elif r < 0.81:
             ops.append(["atomic", run])
         elif r < 0.84:
